@@ -26,7 +26,8 @@ def state_names(rng, n, alphabet, kind=None):
     return names
 
 
-def gen_wfsa(rng, max_states=5, alphabet=None, acyclic=False, peps=0.25, names=None, max_arcs=9, eps_cycle=None):
+def gen_wfsa(rng, max_states=5, alphabet=None, acyclic=False, peps=0.25, names=None, max_arcs=9, eps_cycle=None, tiny=None,
+             zero_arcs=None):
     if alphabet is None:
         alphabet = ["a", "b", "c"][: rng.randint(1, 3)] if rng.random() < 0.8 else [0, 1, 2][: rng.randint(1, 3)]
     n = rng.randint(1, max_states)
@@ -49,6 +50,10 @@ def gen_wfsa(rng, max_states=5, alphabet=None, acyclic=False, peps=0.25, names=N
     if rng.random() < 0.3 and arcs:  # parallel arc
         i, a, j, _ = rng.choice(arcs)
         arcs.append([i, a, j, rng.randint(1, 6)])
+    if rng.random() < 0.25 and arcs and len(alphabet) > 1:  # same state pair under another label
+        i, a, j, _ = rng.choice(arcs)
+        if not acyclic or i < j:
+            arcs.append([i, rng.choice([b for b in alphabet if b != a] or [a]), j, rng.randint(1, 6)])
     out = {}
     for i, a, j, w in arcs:
         out[i] = out.get(i, 0) + w
@@ -58,6 +63,23 @@ def gen_wfsa(rng, max_states=5, alphabet=None, acyclic=False, peps=0.25, names=N
         while k < 2 * out[i]:
             k *= 2
         scaled.append([i, a, j, Fr(w, k)])
+    if tiny is None:
+        tiny = rng.random() < 0.12
+    if tiny:
+        # tiny but non-zero arc weights (exact over Q): nothing may be dropped "for robustness"
+        sc = Fr(1, 2 ** rng.choice([20, 40, 60]))
+        k = rng.randrange(len(scaled)) if scaled else 0
+        scaled = [[i, a, j, (w * sc if (idx == k or rng.random() < 0.3) else w)] for idx, (i, a, j, w) in enumerate(scaled)]
+    if zero_arcs is None:
+        zero_arcs = rng.random() < 0.15
+    if zero_arcs and n >= 1:
+        # explicit zero-weight arcs (the library itself leaves such arcs behind, e.g. in push): inserted first or last
+        i, j = rng.randrange(n), rng.randrange(n)
+        if acyclic and i != j:
+            i, j = min(i, j), max(i, j)
+        if not acyclic or i < j:
+            z = [i, rng.choice(alphabet), j, Fr(0)]
+            scaled = ([z] + scaled) if rng.random() < 0.5 else (scaled + [z])
     start = {}
     for _ in range(rng.randint(1, 2)):
         start[rng.randrange(n)] = Fr(rng.randint(1, 4), 4)
@@ -138,6 +160,10 @@ def classify_wfsa(m):
         cls.add("dead_state")
     if not (acc & co):
         cls.add("empty_language")
+    if any(w == 0 for _, _, _, w in m["arcs"]):
+        cls.add("zero_weight_arc")
+    if any(0 < abs(w) < Fr(1, 2**15) for _, _, _, w in m["arcs"]):
+        cls.add("tiny_weight")
     return sorted(cls)
 
 
@@ -151,6 +177,13 @@ def gen_fst(rng, max_states=4, A=None, B=None, peps=0.3, max_arcs=7):
         a = EPS if rng.random() < peps else rng.choice(A)
         b = EPS if rng.random() < peps else rng.choice(B)
         arcs.append([i, [a, b], j, rng.randint(1, 6)])
+    if rng.random() < 0.3 and arcs:
+        # one-to-many rewriting: same source, input symbol and target, different outputs (and the converse)
+        i, (a, b), j, _ = rng.choice(arcs)
+        if rng.random() < 0.5:
+            arcs.append([i, [a, rng.choice([y for y in B + [EPS] if y != b])], j, rng.randint(1, 6)])
+        else:
+            arcs.append([i, [rng.choice([x for x in A + [EPS] if x != a]), b], j, rng.randint(1, 6)])
     out = {}
     for i, ab, j, w in arcs:
         out[i] = out.get(i, 0) + w
@@ -191,6 +224,11 @@ def classify_fst(t):
 
     if any(col.get(u, 0) == 0 and dfs(u) for u in range(n)):
         cls.add("fst_cyclic")
+    seen = {}
+    for i, (a, b), j, _ in t["arcs"]:
+        seen.setdefault((i, a, j), set()).add(b)
+    if any(len(v) > 1 for v in seen.values()):
+        cls.add("fst_one_to_many_parallel")
     if len(t["start"]) > 1:
         cls.add("fst_multi_initial")
     if len(t["stop"]) > 1:
